@@ -274,6 +274,20 @@ class Prog:
         return out
 
 
+_ALLOC_RE = re.compile(r"^std::(?:vec::|string::|collections::(?:hash::(?:map|set)::)?)?(Vec|String|HashMap|HashSet|VecDeque)(?:<.*>)?::(new|with_capacity)$")
+
+
+def alloc_site(term):
+    """Identity of a freshly allocated collection: the block of its `new()` / `with_capacity(..)` call (canonical strings drop
+    call-site identity — two empty vectors of one function read alike — so rules that must tell them apart use the site)."""
+    t = strip(term)
+    while t and t[0] == "mutated":
+        t = strip(t[1])
+    if t and t[0] == "call" and isinstance(t[1], str) and _ALLOC_RE.match(t[1]) and len(t) > 3:
+        return t[3]
+    return None
+
+
 # ---- canonical strings --------------------------------------------------------
 
 def canon(t, depth=0):
@@ -343,6 +357,19 @@ def canon(t, depth=0):
         if mfb and len(t[2]) == 1:
             # `i64::from(b)` for a bool is the cast `b as i64`
             return "(%s as %s)" % (canon(t[2][0], d), mfb.group(1) or mfb.group(2))
+        if isinstance(t[1], str) and len(t[2]) == 1:
+            # nominal spellings of one operation (Appendix C.1): `for x in &v` / `for x in v.iter()` / `for x in slice`;
+            # `s.to_string()` / `s.to_owned()` / `String::from(s)` for a `&str`
+            if t[1] in _BYREF_ITER:
+                return "[T]::iter(%s)" % canon(t[2][0], d)
+            if t[1] in _BYREF_ITER_MUT:
+                return "[T]::iter_mut(%s)" % canon(t[2][0], d)
+            if t[1] in _STR_TO_STRING:
+                return "ToString::to_string(%s)" % canon(t[2][0], d)
+            m_cap = _WITH_CAPACITY.match(t[1])
+            if m_cap:
+                # a capacity hint is not observable: `Vec::with_capacity(n)` is the empty collection `Vec::new()`
+                return "%s::new()" % m_cap.group(1)
         sn = short(t[1])
         if sn in ("Option::expect", "Result::expect", "Result::expect_err") and len(t[2]) == 2:
             # the panic message is documentation, not behaviour
@@ -388,6 +415,10 @@ def _try_value(x, d):
     return "try(%s)" % canon(x, d)
 
 
+_BYREF_ITER = {"<&std::vec::Vec<T, A> as std::iter::IntoIterator>::into_iter", "core::slice::iter::<impl std::iter::IntoIterator for &[T]>::into_iter"}
+_BYREF_ITER_MUT = {"<&mut std::vec::Vec<T, A> as std::iter::IntoIterator>::into_iter", "core::slice::iter::<impl std::iter::IntoIterator for &mut [T]>::into_iter"}
+_STR_TO_STRING = {"std::str::<impl std::borrow::ToOwned for str>::to_owned", "<std::string::String as std::convert::From<&str>>::from"}
+_WITH_CAPACITY = re.compile(r"^std::(?:vec::|string::|collections::(?:hash::(?:map|set)::)?)?(Vec|String|HashMap|HashSet|VecDeque)(?:<.*>)?::with_capacity$")
 _INT_TY = re.compile(r"^[iu](8|16|32|64|128|size)$")
 _FROM_BOOL = re.compile(r"^(?:<([iu](?:8|16|32|64|128|size)) as std::convert::From<bool>>::from|std::convert::num::<impl std::convert::From<bool> for ([iu](?:8|16|32|64|128|size))>::from)$")
 
